@@ -64,17 +64,37 @@ def palette_swaps(F, S):
     good = len(sw) == 1
     detail = "%d swap sites" % len(sw)
     if good:
-        outer = [nd for nd in wp.nodes if nd["k"] == "CXXForRangeStmt" and wp.term(nd["range"]) == ("mem", ("this",), "palettes")]
-        good = len(outer) == 1
+        # the colours swapped are those of one variable R; R must be a by-value local (a copy of the stored palette),
+        # and R is what is written afterwards
+        inner = [nd for nd in wp.nodes if nd["k"] == "CXXForRangeStmt" and sw[0][0]["id"] in wp.subtree(nd["body"])]
+        inner = [nd for nd in inner if wp.term(nd["range"])[0] == "var"]
+        good = len(inner) >= 1
         if good:
-            lv = wp.n(outer[0]["loopvar"])["decls"][0]
-            copyvar = ("var", lv["n"], lv["d"])
-            by_value = not lv.get("is_ref")
-            inner = [nd for nd in wp.nodes if nd["k"] == "CXXForRangeStmt" and wp.term(nd["range"]) == copyvar]
-            writes = [nd for nd in wp.nodes if nd["k"] == "CXXMemberCallExpr" and nd.get("fname") == "Write" and wp.term(nd["args"][0]) == copyvar]
-            good = by_value and len(inner) == 1 and sw[0][0]["id"] in wp.subtree(inner[0]["body"]) and \
-                wp.n(inner[0]["loopvar"])["decls"][0].get("is_ref") and len(writes) == 1 and writes[0]["id"] > inner[0]["id"]
-            detail = "outer loop variable by value: %s; swap inside loop over the copy: %s; copy written after: %s" % (by_value, len(inner) == 1, len(writes) == 1)
+            R = wp.term(inner[-1]["range"])
+            decl = None
+            for nd in wp.nodes:
+                if nd["k"] == "DeclStmt":
+                    for d in nd.get("decls", []):
+                        if ("var", d.get("n"), d.get("d")) == R:
+                            decl = d
+            by_value = decl is not None and not decl.get("is_ref")
+            from_member = False
+            if decl is not None and "init" in decl:
+                it = wp.term(decl["init"])
+                # loop variable of a range-for over this->palettes, or a copy of such a loop variable
+                src = it
+                if it[0] == "var":
+                    for nd in wp.nodes:
+                        if nd["k"] == "CXXForRangeStmt" and wp.n(nd["loopvar"])["decls"][0].get("d") == it[2]:
+                            src = ("elem", wp.term(nd["range"]))
+                for nd in wp.nodes:
+                    if nd["k"] == "CXXForRangeStmt" and wp.n(nd["loopvar"])["decls"][0].get("d") == R[2]:
+                        src = ("elem", wp.term(nd["range"]))
+                from_member = src == ("elem", ("mem", ("this",), "palettes"))
+            ref_elems = wp.n(inner[-1]["loopvar"])["decls"][0].get("is_ref")
+            writes = [nd for nd in wp.nodes if nd["k"] == "CXXMemberCallExpr" and nd.get("fname") == "Write" and wp.term(nd["args"][0]) == R]
+            good = by_value and from_member and ref_elems and len(writes) == 1 and writes[0]["id"] > inner[-1]["id"]
+            detail = "swapped object is a by-value copy: %s; copied from the stored palette: %s; written after the swap: %s" % (by_value, from_member, len(writes) == 1)
     if good:
         out.append(ok("R-MUSTCALL", inst, wp.loc(sw[0][0]["id"]), wp.qn, req, detail))
     else:
